@@ -26,7 +26,7 @@ SPEC = {
     "thorough": {"shards": 16, "time_cap": 1500, "queries": 50000, "idents": 10000},
 }
 FEATS = dict(unqualified=0.75, stars="base-only", cte_cols=True, using=True, window=True, any_sub=False, star_dup_order=False,
-             setops_all=False, nulls_order=True, nested_with=True, deep_corr=0.3, natural_join=0.15, star_beside_using=0.5, derived_setop=0.1)
+             setops_all=False, nulls_order=True, nested_with=True, deep_corr=0.3, natural_join=0.15, star_beside_using=0.5, derived_setop=0.1, agg_order_by=0.3)
 QDIALECTS = ["", "duckdb", "postgres", "snowflake", "mysql", "bigquery", "tsql", "spark", "sqlite", "oracle", "clickhouse", "trino"]
 
 with open(os.path.join(VERIF_DIR, "vf", "spec", "normalization.json")) as _f:
@@ -147,7 +147,8 @@ def audit_qualified(tree, expected_names):
             probs.append(("column-outside-select", c.sql()))
             continue
         order_anc = c.find_ancestor(exp.Order)
-        in_own_order = order_anc is not None and enclosing_select(order_anc) is sel and not c.find_ancestor(exp.Window)
+        # only the query's own ORDER BY may name an output column; the ORDER BY inside an aggregate call or a window may not
+        in_own_order = order_anc is not None and order_anc.parent is sel and not c.find_ancestor(exp.Window)
         if not c.table:
             if in_own_order and c.name in sel.named_selects:
                 continue
